@@ -29,7 +29,7 @@ RULE = ("scenario = one conversation (initialize + 1..5 list/call/read/get/ping/
         "several classes, 0..3 notifications before each response, string and integer ids) run over every carrier able to express it, with "
         "per-carrier nuisance (latency, chunking); non-trivial = at least two carriers ran and the conversation has a notification, an error "
         "reply, an integer id or non-ASCII payload")
-PROBES = ["error_reply_with_code_0_or_empty_message", "lone_surrogate_escape_in_server_text", "legacy_sse_untyped_event_with_endpoint_like_payload", "server_greets_at_connection_time", "greeting_in_same_chunk_as_endpoint", "http_session_assigned_with_initialize_result", "http_sse_untyped_events_after_keepalive", "through_mcpclient", "slow_notification_transit_on_http", "over_100_notifications_in_session", "sse_event_before_202", "notifications_before_response", "error_reply", "int_id", "non_ascii_payload", "four_carriers", "nested_nulls"]
+PROBES = ["result_with_explicit_null_error", "error_reply_with_code_0_or_empty_message", "lone_surrogate_escape_in_server_text", "legacy_sse_untyped_event_with_endpoint_like_payload", "server_greets_at_connection_time", "greeting_in_same_chunk_as_endpoint", "http_session_assigned_with_initialize_result", "http_sse_untyped_events_after_keepalive", "through_mcpclient", "slow_notification_transit_on_http", "over_100_notifications_in_session", "sse_event_before_202", "notifications_before_response", "error_reply", "int_id", "non_ascii_payload", "four_carriers", "nested_nulls"]
 TIERS = {"quick": {"runs": 3000, "wall": 45.0}, "thorough": {"runs": 80000, "wall": 560.0}}
 ASSUMPTIONS = ["fault-free by construction: only latency and chunking vary between carriers",
                "JSON-body HTTP runs only conversations without interleaved notifications (a single JSON object cannot express them)",
@@ -46,7 +46,7 @@ def generate(rng: random.Random, tier: str) -> dict:
     for k in range(rng.choice([1, 2, 3, 5])):
         h = rng.choice(HELPERS)
         e = {"helper": h, "notifs": rng.choice([0, 0, 1, 2, 3, 3, 45, 70] if rng.random() < 0.25 else [0, 0, 1, 2, 3]), "reply": rng.choice(["result", "result", "result", "error"]),
-             "code": rng.choice([-32601, -32602, -32603, -32000, -32001, 42, 401, 0]), "empty_errmsg": rng.random() < 0.1, "text": rng.choice(TEXTS), "nulls": rng.random() < 0.4,
+             "code": rng.choice([-32601, -32602, -32603, -32000, -32001, 42, 401, 0]), "empty_errmsg": rng.random() < 0.1, "null_error": rng.random() < 0.1, "text": rng.choice(TEXTS), "nulls": rng.random() < 0.4,
              "data": rng.choice([None, {"d": 1}, "str", [1, None]])}
         if rng.random() < 0.12:
             # text only the server says (results, errors, notifications): an emoji cut in half as JSON.stringify emits it, paths that
@@ -129,6 +129,9 @@ def _reply(e, k, rid):
         if e["data"] is not None:
             err["data"] = e["data"]
         return {"jsonrpc": "2.0", "id": rid, "error": err}
+    if e.get("null_error"):
+        # some servers serialise every field of their response object: an explicit "error": null next to the result
+        return {"jsonrpc": "2.0", "id": rid, "result": _result_for(e, k), "error": None}
     return {"jsonrpc": "2.0", "id": rid, "result": _result_for(e, k)}
 
 
@@ -508,6 +511,9 @@ def execute(scn: dict) -> dict:
         for nmsg in _notifs(e, k):
             exp_t.append(("notification", "NoneType", None, nmsg["method"], nmsg["params"]))
         rep = _reply(e, k, e.get("id", "<auto>"))
+        if rep.get("error", 0) is None:
+            rep = {k_: v_ for k_, v_ in rep.items() if k_ != "error"}
+            probe("result_with_explicit_null_error")
         exp_t.append(("error" if "error" in rep else "result", type(e["id"]).__name__ if "id" in e else "str", e.get("id"), None,
                       rep.get("result") if "result" in rep else rep["error"]))
     ref = results["stdio"]
